@@ -65,6 +65,9 @@ PB_HARD = [
     "self._buffer.g_cap == self.g_mds and self.g_mds <= 1500",
     "self._buffer_capacity <= self.g_mds",
     "self._flight_capacity <= self._buffer_capacity",
+    # C08 'builder flight budget': once a datagram is under assembly its in-flight capacity is what is left of the congestion
+    # budget handed to the builder (max_flight_bytes, possibly already exceeded: then nothing that counts as in flight fits)
+    "implies(not self._datagram_init and self.max_flight_bytes is not None, self._flight_capacity <= some(self.max_flight_bytes) - self._flight_bytes)",
     # accounting: _total_bytes is the number of bytes of all datagrams produced so far
     "self._total_bytes == self.g_out and self.g_out >= 0",
     "implies(self._datagram_init, self._buffer.g_pos == 0 and not self.g_need)",
